@@ -399,7 +399,16 @@ pub fn explore_history(sc: &Scope, label: &str, st: &SeedState) -> History {
         steps.push(Step::Query { msg: QueryMsg::GetBid { id: id.to_string() } });
     }
     steps.push(Step::Query { msg: QueryMsg::GetContractInfo {} });
-    History { label: label.to_string(), start: Start::Seed { markers: sc.markers.clone(), attrs: sc.attrs.clone(), state: st.clone() }, steps }
+    let start = Start::Seed { markers: sc.markers.clone(), attrs: sc.attrs.clone(), state: st.clone() };
+    // request kinds the model does not know (none on the pinned tree): a dozen of each from this state
+    if !crate::unknown::unknown_kinds().is_empty() {
+        let mut w = World::new();
+        w.start(label, &start);
+        let seed = label.bytes().fold(0xcbf29ce484222325u64, |h, b| (h ^ b as u64).wrapping_mul(0x100000001b3));
+        let mut r = crate::gen::Rng(seed | 1);
+        steps.extend(crate::unknown::requests(&mut r, &w, 12));
+    }
+    History { label: label.to_string(), start, steps }
 }
 
 pub struct BfsOut {
